@@ -3,6 +3,7 @@
   correspondence run evaluates them on every generated move of every visited position (field `sync=` of the M line).
 -/
 import ChessVerif.Lemmas.Ranges
+import ChessVerif.Lemmas.Refine
 import ChessVerif.Model.Movegen
 namespace Chess
 
@@ -40,14 +41,48 @@ instance (p : Position) : Decidable (Ranges p) :=
   decidable_of_iff (p.castling < 16 ∧ p.ep < 65 ∧ p.halfmove < 256 ∧ p.side ≤ 1)
     ⟨fun ⟨a, b, c, d⟩ => ⟨a, b, c, d⟩, fun h => ⟨h.castling, h.ep, h.halfmove, h.side⟩⟩
 
-/-- evaluated by the driver at every state line: ranges hold and EVERY generated move satisfies UndoOK -/
+/-- evaluated by the driver at every state line: ranges and ply parity hold and EVERY generated move satisfies UndoOK -/
 def hypothesesHold (p : Position) : Bool :=
-  decide (Ranges p) && (genMoves p).all (fun m => decide (UndoOK p m))
+  decide (Ranges p) && decide (PlyOK p) && (genMoves p).all (fun m => decide (UndoOK p m))
 
 theorem hypothesesHold_sound (p : Position) (h : hypothesesHold p = true) :
-    Ranges p ∧ ∀ m ∈ genMoves p, UndoOK p m := by
+    Ranges p ∧ PlyOK p ∧ ∀ m ∈ genMoves p, UndoOK p m := by
   unfold hypothesesHold at h
   simp only [Bool.and_eq_true, decide_eq_true_eq, List.all_eq_true] at h
-  exact h
+  exact ⟨h.1.1, h.1.2, h.2⟩
+
+set_option synthInstance.maxSize 4096 in
+set_option synthInstance.maxHeartbeats 400000 in
+instance (s : Spec.SPos) (m : Spec.SMove) : Decidable (StepOK s m) :=
+  decidable_of_iff
+    ((s.board.length = 64 ∧ s.side ≤ 1 ∧ s.castling < 16 ∧ RightsInv s.board s.castling ∧ m.src < 64 ∧ m.dst < 64 ∧ m.src ≠ m.dst) ∧
+     (gd s.board m.src ≠ 0 ∧ gd s.board m.src = mkPiece s.side (kindOf (gd s.board m.src))) ∧
+     (gd s.board m.dst ≠ 0 → gd s.board m.dst = mkPiece (1 - s.side) (kindOf (gd s.board m.dst))) ∧
+     (m.promo < 8 ∧ (m.promo ≠ 0 → kindOf (gd s.board m.src) = PAWN ∧ m.dst ≠ s.ep)) ∧
+     (kindOf (gd s.board m.src) = PAWN →
+       (s.side = 0 → (m.dst = m.src + 8 ∨ (m.dst = m.src + 16 ∧ m.src / 8 = 1) ∨ ((m.dst = m.src + 7 ∨ m.dst = m.src + 9) ∧ m.dst / 8 = m.src / 8 + 1))) ∧
+       (s.side = 1 → (m.dst + 8 = m.src ∨ (m.dst + 16 = m.src ∧ m.src / 8 = 6) ∨ ((m.dst + 7 = m.src ∨ m.dst + 9 = m.src) ∧ m.dst / 8 + 1 = m.src / 8)))) ∧
+     ((kindOf (gd s.board m.src) = PAWN ∧ m.dst = s.ep) →
+       s.ep ≠ 64 ∧ m.src % 8 ≠ m.dst % 8 ∧ gd s.board m.dst = 0 ∧ m.promo = 0 ∧ 16 ≤ m.dst ∧ m.dst < 48 ∧
+       gd s.board (if s.side = 0 then m.dst - 8 else m.dst + 8) = mkPiece (1 - s.side) PAWN ∧
+       (if s.side = 0 then m.dst - 8 else m.dst + 8) ≠ m.src) ∧
+     ((kindOf (gd s.board m.src) = KING ∧ (m.dst = m.src + 2 ∨ m.dst + 2 = m.src)) →
+       m.src = (if s.side = 0 then 4 else 60) ∧ m.promo = 0 ∧
+       (m.dst = m.src + 2 → gd s.board (m.src + 1) = 0 ∧ gd s.board (m.src + 2) = 0 ∧ gd s.board (m.src + 3) = mkPiece s.side ROOK) ∧
+       (m.dst + 2 = m.src → gd s.board (m.src - 1) = 0 ∧ gd s.board (m.src - 2) = 0 ∧ gd s.board (m.src - 4) = mkPiece s.side ROOK)))
+    ⟨fun ⟨⟨a1, a2, a3, a4, a5, a6, a7⟩, b, c, d, e, f, g⟩ => ⟨a1, a2, a3, a4, a5, a6, a7, b, c, d, e, f, g⟩,
+     fun h => ⟨⟨h.len, h.side, h.cast, h.rights, h.src, h.dst, h.ne⟩, h.own, h.target, h.promo, h.pawn, h.ep, h.castle⟩⟩
+
+/-- evaluated by the driver at every state line of the RULES side: every legal move has the shape C02's theorem assumes -/
+def specHypothesesHold (s : Spec.SPos) : Bool :=
+  decide (254 < s.halfmove) || (Spec.legalMoves s).all (fun m => decide (StepOK s m))
+
+theorem specHypothesesHold_sound (s : Spec.SPos) (h : specHypothesesHold s = true) (hh : s.halfmove < 255) :
+    ∀ m ∈ Spec.legalMoves s, StepOK s m := by
+  unfold specHypothesesHold at h
+  simp only [Bool.or_eq_true, decide_eq_true_eq, List.all_eq_true] at h
+  rcases h with h | h
+  · omega
+  · exact h
 
 end Chess
